@@ -107,7 +107,7 @@ def _r30a(chk, repo) -> None:
             chk.fail("R30a", call, "appended value is not the patch currently iterated", detail="append: iterated patch")
             continue
         loop = fo[0]
-        conds = cfg.conditions(st)
+        conds = _expanded_conditions(cfg, st)
         # -- duplicate test ------------------------------------------------
         dup_ok, buf, dnode = False, None, None
         for e, pol in conds:
@@ -158,12 +158,101 @@ def _r30a(chk, repo) -> None:
             has_patch = len(other) == 1 and for_origin(cfg, other[0], cfg.stmt_of(e)) == fo
             if has_existing and has_patch and ((fn == "any" and not neg and not pol) or (fn == "all" and neg and pol)):
                 conf_ok = True
+        if not conf_ok:
+            conf_ok = _flag_loop_conflict_test(repo, cfg, f, conds, merged, fo, conflict_fn)
         chk.require(
             conf_ok, "R30a", call,
             "patch appended to the merged list without a dominating conflict test against every patch already kept",
             detail="append: conflict test against every kept patch",
         )
         chk.sample({"rule": "R30a", "site": f"{PATCH}:{call.lineno}", "append": short(call, 60), "guards": [f"{short(e, 70)} is {pol}" for e, pol in conds]})
+
+
+def _expanded_conditions(cfg, st):
+    """cfg.conditions(st) with boolean locals replaced by the test they were bound to
+    (``seen = k in buf; if seen: continue``), recursively through and/or/not."""
+    from ..cfg import atoms as _atoms
+
+    out = []
+
+    def go(e, pol, at, depth):
+        if isinstance(e, ast.Name) and depth < 4:
+            os_ = origins(cfg, e, at)
+            if len(os_) == 1 and os_[0].kind == "expr" and not os_[0].path and isinstance(os_[0].expr, (ast.Compare, ast.BoolOp, ast.UnaryOp, ast.Call)):
+                for e2, p2 in _atoms(os_[0].expr, pol):
+                    go(e2, p2, os_[0].stmt, depth + 1)
+                return
+        out.append((e, pol))
+
+    for g in cfg.guards(st):
+        if isinstance(g.stmt, (ast.If, ast.While)):
+            for e, pol in _atoms(g.stmt.test, g.polarity):
+                go(e, pol, g.stmt, 0)
+    return out
+
+
+def _flag_loop_conflict_test(repo, cfg, f, conds, merged: str, fo, conflict_fn) -> bool:
+    """The conflict test spelled as a loop with a flag::
+
+        clash = False
+        for existing in <merged>:
+            if _patches_conflict(existing, patch):
+                clash = True        # optionally: break
+        if clash: continue
+
+    Accepted when a dominating condition is ``<flag>`` false, the flag's only definitions are a
+    False constant and True constants, every True store sits in a ``for`` over the merged list
+    (unfiltered, the test being the first statement of its body) under a positive call of the
+    conflict function on (loop element, iterated patch) in either order."""
+    for e, pol in conds:
+        if not (isinstance(e, ast.Name) and not pol):
+            continue
+        defs = [n for n in walk_local(f) if isinstance(n, ast.Assign) and any(isinstance(t, ast.Name) and t.id == e.id for t in n.targets)]
+        others = [n for n in walk_local(f) if isinstance(n, (ast.AugAssign, ast.AnnAssign, ast.For, ast.With, ast.NamedExpr)) and any(
+            isinstance(x, ast.Name) and x.id == e.id and isinstance(getattr(x, "ctx", None), ast.Store) for x in ast.walk(n) if not isinstance(x, ast.stmt) or x is n)]
+        if not defs or any(not isinstance(d.value, ast.Constant) or d.value.value not in (True, False) for d in defs):
+            continue
+        if any(isinstance(n, (ast.AugAssign, ast.AnnAssign, ast.NamedExpr)) for n in others):
+            continue
+        trues = [d for d in defs if d.value.value is True]
+        falses = [d for d in defs if d.value.value is False]
+        if not trues or not falses:
+            continue
+        ok = True
+        for d in trues:
+            lp = getattr(d, "_parent", None)
+            test_if = None
+            while lp is not None and not isinstance(lp, ast.For):
+                if isinstance(lp, ast.If) and test_if is None:
+                    test_if = lp
+                lp = getattr(lp, "_parent", None)
+            if not (isinstance(lp, ast.For) and isinstance(lp.iter, ast.Name) and lp.iter.id == merged and isinstance(lp.target, ast.Name) and test_if is not None and lp.body and lp.body[0] is test_if):
+                ok = False
+                break
+            t = test_if.test
+            if not (isinstance(t, ast.Call) and (callee(repo, t) or (None, None))[1] is conflict_fn and len(t.args) == 2 and not t.keywords and d in test_if.body):
+                ok = False
+                break
+            names = list(t.args)
+            has_existing = sum(isinstance(x, ast.Name) and x.id == lp.target.id for x in names) == 1
+            other = [x for x in names if not (isinstance(x, ast.Name) and x.id == lp.target.id)]
+            if not (has_existing and len(other) == 1 and for_origin(cfg, other[0], test_if) == fo):
+                ok = False
+                break
+            # the reset to False happens in the same iteration of the patch loop, before this inner loop
+            if not any(cfg.dominates(fz, lp) and any(p is fo[0] for p in _parents_of(fz)) for fz in falses):
+                ok = False
+                break
+        if ok:
+            return True
+    return False
+
+
+def _parents_of(n):
+    p = getattr(n, "_parent", None)
+    while p is not None:
+        yield p
+        p = getattr(p, "_parent", None)
 
 
 # ---------------------------------------------------------------------------
@@ -479,6 +568,19 @@ def _r30d(chk, repo) -> None:
 from ..selftest import Variant  # noqa: E402
 
 VARIANTS = [
+    # behaviour-preserving refactors: must stay quiet
+    Variant(
+        "quiet-merge-flat-list-and-loop-conflict-test", PATCH,
+        "        if any(_patches_conflict(existing, patch) for existing in merged_patches):\n            linter_logger.info(\n                \"Skipping conflicting cross-variant patch: %s\",\n                patch,\n            )\n            continue\n",
+        "        clash = False\n        for existing in merged_patches:\n            if _patches_conflict(existing, patch):\n                clash = True\n                break\n        if clash:\n            continue\n",
+        "QUIET", None, "any(...) spelled as a loop with a flag",
+    ),
+    Variant(
+        "quiet-merge-dedupe-key-inline", PATCH,
+        "        dedupe_tuple = patch.dedupe_tuple()\n        if dedupe_tuple in dedupe_buffer:\n            continue\n",
+        "        dedupe_tuple = patch.dedupe_tuple()\n        seen_before = dedupe_tuple in dedupe_buffer\n        if seen_before:\n            continue\n",
+        "QUIET", None, "duplicate test through a local",
+    ),
     Variant(
         "slicer-cursor-moves-for-skipped-patch", LFILE,
         "                # Ignore the patch for now...\n                continue\n\n            # Add this patch.\n            slice_buff.append(patch.source_slice)\n",
